@@ -6,6 +6,11 @@
 (A)  every TLC-generated behaviour is executed on a real BitmapAccumulator (component level).
 (B)  a real AutomatedTesting chain (spends, forks, reorganisations, read-only rewinds, restarts, blocks
      committing to a wrong bitmap) is recorded and validated against spec/trace/BitmapTrace.tla.
+     Every delivery class also gets twins of an honest block whose header folds the right output PMMR root with
+     ANOTHER bitmap root (parent state, sibling state, one bit flipped, extra zero chunk): as next block, as
+     winner of a reorganisation and as block on a losing fork (work <= head) they must be refused; every
+     accepted block's output_root must equal the fold with the from-scratch bitmap root of its own state
+     (BitmapTrace!HdrOK), fork blocks included.
 (B') the same events recorded at the txhashset level (h_bitmap direct): the unit of work of
      pipe::process_block - txhashset::extending { Extension::rewind to the fork point, apply_block for the
      fork blocks and the block, force_rollback for a block that does not win } - driven on a real
@@ -83,6 +88,11 @@ def classify(ev, level="chain"):
     k = ev.get("k", "?")
     what = str(ev.get("what", "")).split(":")[0]
     base = "bitmap:%s:%s%s" % (level, k, (":" + what) if what else "")
+    if what == "wrong_bitmap_root" and ev.get("res") != "reject":
+        # a header committing to another bitmap than the from-scratch one of its state was not refused
+        return "bitmap:%s:%s:wrong_bitmap_root_accepted:class=%s" % (level, k, ev.get("class", "?"))
+    if ev.get("hdr_root") is not None and ev.get("hdr_root") != ev.get("hdr_root_fs") and ev.get("res") != "reject":
+        return base + ":accepted_header_commits_to_other_bitmap"
     if ev.get("res") is not None and ev.get("res") != ev.get("exp"):
         return base + ":result:%s->%s" % (ev.get("exp"), ev.get("res"))
     if ev.get("obs"):
@@ -178,16 +188,17 @@ DIRECT_NEED = {
     "losing_fork_differs_in_old_chunk": 3,           # rolled-back fork state differs from the committed one in an old chunk
     "apply_after_losing_fork_skips_its_chunk": 2,    # ... and the next block leaves that chunk alone
     "reorg_rewind_crosses_chunk_boundary": 1, "probe_crosses_chunk_boundary": 2,
+    "wrong_root_next_block": 2, "wrong_root_reorg_winning": 2, "wrong_root_losing_fork": 2,   # header commits to another bitmap: refused
     "refused_blocks": 2,                             # an extension that fails after touching the accumulator
     "reorgs": 3, "ev_Reopen": 3, "ev_Probe": 20, "ev_Stay": 5, "ev_Rewind": 3,
 }
 
 
 def direct_params(thorough, seed):
-    """(outputs per recording, seeds): quick = one history over four chunks and one over three."""
+    """(outputs per recording, seeds): quick = one history over four chunks and one over two."""
     if thorough:
         return [4300, 3300, 5200, 2300], [seed * 7 + 1, seed * 7 + 2, seed * 7 + 3, seed * 7 + 4]
-    return [3200, 2200], [seed * 7 + 1, seed * 7 + 2]
+    return [3200, 1400], [seed * 7 + 1, seed * 7 + 2]
 
 
 def run(tier, replay):
@@ -319,7 +330,7 @@ def run(tier, replay):
     witness = sorted(set(m["what"] for m in wres[0]["mismatches"]))
 
     # ---------------------------------------------------------------- (B) the chain
-    outputs = 2150 if thorough else 300
+    outputs = 2150 if thorough else 230
     t0 = time.time()
     info, events, tr = check_chain(rep, wd, roots_path, outputs, seed)
     log("chain (B): %d outputs, %d blocks, %d events recorded and validated in %.0fs" % (info["outputs"], info["blocks"], info["events"], time.time() - t0))
@@ -330,7 +341,7 @@ def run(tier, replay):
     if tr is not None:
         trace_actions = {k: v[1] for k, v in tr.action_counts().items()}
         st = info["stats"]
-        need = {"bad_bitmap_blocks": 1, "reorgs": 1, "probe_without_respent": 1, "ev_Reopen": 1, "ev_Probe": 1, "ev_Stay": 1}
+        need = {"bad_bitmap_blocks": 1, "wrong_root_next_block": 1, "wrong_root_reorg_winning": 1, "wrong_root_losing_fork": 1, "reorgs": 1, "probe_without_respent": 1, "ev_Reopen": 1, "ev_Probe": 1, "ev_Stay": 1}
         if thorough:
             need.update({"reorg_rewind_crosses_chunk_boundary": 2, "probe_crosses_chunk_boundary": 2})
         for k, n in need.items():
@@ -347,11 +358,24 @@ def run(tier, replay):
         ev2 = json.loads(json.dumps(events))
         ev2[i]["root_real"] = ev2[i - 1].get("root_real", "00") if ev2[i - 1].get("root_real") != ev2[i]["root_real"] else "00"
         p2 = os.path.join(wd, "trace_bad_root.ndjson")
-        vlib.write_ndjson(p2, ev2)
+        vlib.write_ndjson(p2, ev2[:i + 2])
         ok2, d2 = validate_trace(p2, "selftest root")
         if ok2 or d2 != i + 1:
             raise ToolError("selftest: corrupted root_real not refused at its event (%s, %s)" % (ok2, d2))
         selftests.append("corrupted root_real refused at event %d" % d2)
+        # a losing-fork block whose header commits to another bitmap, logged as accepted -> refused by HdrOK
+        tw = [j for j, ev in enumerate(events) if str(ev.get("what", "")).startswith("wrong_bitmap_root") and ev.get("class") == "losing_fork"]
+        if not tw:
+            raise ToolError("no wrong-bitmap twin on a losing fork in the chain recording")
+        j = tw[0]
+        ev6 = json.loads(json.dumps(events[:j + 2]))
+        ev6[j]["res"] = ev6[j]["exp"] = "ok_fork"
+        p6 = os.path.join(wd, "trace_bad_twin.ndjson")
+        vlib.write_ndjson(p6, ev6)
+        ok6, d6 = validate_trace(p6, "selftest twin")
+        if ok6 or d6 != j + 1 or classify(ev6[j]) != "bitmap:chain:Stay:wrong_bitmap_root_accepted:class=losing_fork":
+            raise ToolError("selftest: an accepted losing-fork block committing to another bitmap was not refused (%s, %s)" % (ok6, d6))
+        selftests.append("accepted wrong-bitmap losing-fork block refused at event %d" % d6)
         sp = [j for j, ev in enumerate(events) if ev["k"] == "Apply" and len(ev.get("spent", [])) > 1]
         if sp:
             j = sp[len(sp) // 2]
